@@ -186,8 +186,8 @@ def _stage(ex):
     return 'draw', site
 
 
-def _target_arg(R, tg, as_list):
-    strs = [_state_str(R.comp[t - 1]) for t in tg]
+def _target_arg(R, tg, as_list, delim='+'):
+    strs = [_state_str(R.comp[t - 1], delim) for t in tg]
     return strs if (as_list or len(strs) > 1) else strs[0]
 
 
@@ -199,10 +199,14 @@ def do_minspan(R, net_obj, recd, q):
     kw = {'T': T}
     if q.get('c'):
         kw['cutoff'] = int(q['c'])
+    delim = q.get('delim', '+')
+    ev['delim'] = delim
+    if delim != '+':
+        kw['species_delimiter'] = delim
     out = None
     try:
-        out = float(net_obj.get_min_E_span(_state_str(R.comp[q['s'] - 1]),
-                                           _target_arg(R, q['t'], q.get('tlist', False)),
+        out = float(net_obj.get_min_E_span(_state_str(R.comp[q['s'] - 1], delim),
+                                           _target_arg(R, q['t'], q.get('tlist', False), delim),
                                            units=units, **kw))
     except Exception as ex:
         ev['raised'] = _exc(ex)
@@ -484,10 +488,10 @@ def _exec_random(case):
             q = _pick_query(rnd, nodes, ists, ts_ends=not diagram)
             q['units'] = rnd.choice(UNITS)
             q['T'] = rnd.choice(T_CHOICES + [rnd.uniform(250.0, 1100.0)])
+            if rnd.random() < 0.3 and any(len(R.comp[i - 1]) > 1 for i in [q['s']] + q['t']):
+                q['delim'] = ';'
             if diagram:
                 q['table'] = rnd.random() < 0.25
-                if len(q['t']) == 1 and rnd.random() < 0.3 and len(R.comp[q['s'] - 1]) > 1:
-                    q['delim'] = ';'
                 e0, calls, labels = do_diagram(R, net_obj, recd, q)
                 events.append(e0)
                 if labels:
@@ -612,11 +616,11 @@ def _tags(case, ev, detail=None):
     if ev and ev.get('ev') in ('minspan', 'diagram'):
         t['multi_target'] = len(ev['tg']) > 1
         t['cutoff_given'] = ev['c'] != 0
+        t['delim'] = ev.get('delim', '+')
     if ev and ev.get('ev') == 'diagram':
         t['stage'] = ev.get('stage', '')
         t['exc'] = ev.get('exc', '')
         t['site'] = ev.get('site', '')
-        t['delim'] = ev.get('delim', '+')
     if ev and ev.get('ev') == 'build':
         t['inc'] = ev['inc']
     if detail:
@@ -668,7 +672,7 @@ def run(ctx):
     cov = {'build': 0, 'build_without_TS': 0, 'minspan': 0, 'diagram': 0, 'span': 0, 'with_cutoff': 0,
            'multi_target': 0, 'queries_with_2plus_pathways': 0, 'diagram_with_max_paths': 0,
            'diagram_with_max_span': 0, 'diagram_with_numbers': 0, 'diagram_drawn': 0,
-           'min_strictly_below_some_span': 0, 'no_units': 0}
+           'min_strictly_below_some_span': 0, 'no_units': 0, 'other_delimiter': 0}
     for tid, (case, (events, mism)) in enumerate(zip(cases, results)):
         ctx.evaluated()
         nontriv = False
@@ -679,6 +683,7 @@ def run(ctx):
             if e['ev'] in ('minspan', 'diagram'):
                 cov['with_cutoff'] += 1 if e['c'] else 0
                 cov['no_units'] += 1 if e.get('units') == '' else 0
+                cov['other_delimiter'] += 1 if e.get('delim', '+') != '+' else 0
                 cov['multi_target'] += 1 if len(e['tg']) > 1 else 0
                 if len(e['calls']) >= 2:
                     cov['queries_with_2plus_pathways'] += 1
